@@ -202,6 +202,9 @@ def _h_prefix(i: int, j: int) -> bool:
         base = RENDER[fmt](core)
         if RENDER[fmt](p + core) != prefix_(fmt, p) + base:
             return False
+        # a greek prefix followed by the radical dot: both map to their symbols, in the written order
+        if p != "." and RENDER[fmt](p + "." + core) != prefix_(fmt, p) + prefix_(fmt, ".") + base:
+            return False
     return True
 
 
